@@ -24,7 +24,8 @@ def check(chk, facts, rule="C06.GUARD.slot"):
         sites = [(b, "EntityReference::Slot", s[3]) for b, s in f.stmts()
                  if s[0] == "a" and s[2][0] == "agg" and s[2][1][0] == "adt" and s[2][1][2] == "Slot" and str(s[2][1][1]).endswith("ast::policy::EntityReference")]
         sites += [(b, "is_entity_type_in_slot", t[1].get("l")) for b, t in f.calls() if callee(t).endswith("::is_entity_type_in_slot")]
-        eqs = [(b, t) for b, t in f.calls() if callee(t).endswith(("SlotId as std::cmp::PartialEq>::eq", "SlotId as std::cmp::PartialEq>::ne"))]
+        # `==` resolves to SlotId's own PartialEq::eq, `!=` to the trait's provided `ne`; the operands checked below make it a SlotId comparison
+        eqs = [(b, t) for b, t in f.calls() if callee(t).endswith(("PartialEq>::eq", "PartialEq>::ne", "cmp::PartialEq::ne", "cmp::PartialEq::eq"))]
         bad = []
         for b, what, line in sites:
             ok = False
@@ -36,9 +37,9 @@ def check(chk, facts, rule="C06.GUARD.slot"):
                 tv = [v for v, _ in taken]
                 # the site lies on the "slots are equal" side: `==` answered true (`else` of the bool switch) or `!=` answered false (0)
                 want = None
-                if any("SlotId as std::cmp::PartialEq>::eq" in str(x) for x in lp) and tv == ["else"]:
+                if any(str(x).endswith(("PartialEq>::eq", "PartialEq::eq")) for x in lp) and tv == ["else"]:
                     want = "::eq"
-                elif any("SlotId as std::cmp::PartialEq>::ne" in str(x) for x in lp) and tv in ([0], ["0"]):
+                elif any(str(x).endswith(("PartialEq>::ne", "PartialEq::ne")) for x in lp) and tv in ([0], ["0"]):
                     want = "::ne"
                 if want is None:
                     continue
